@@ -7,3 +7,4 @@ INVARIANT ArgMinimal
 INVARIANT OrderMinimal
 INVARIANT ExtAnywhere
 CHECK_DEADLOCK FALSE
+INVARIANT BigConsistent
